@@ -44,7 +44,10 @@ fn args_for(f: &Field, tier: Tier) -> Vec<u128> {
 }
 
 fn backgrounds(len: usize, tier: Tier, header_bits: usize) -> Vec<Vec<u8>> {
-    let mut v = vec![vec![0u8; len], vec![0xffu8; len], vec![0xaau8; len], vec![0x55u8; len]];
+    // four uniform fills and two non-uniform ones (every octet - and every nibble position - differs
+    // from its neighbours, so bits copied from the wrong octet show)
+    let ramp: Vec<u8> = (0..len).map(|i| (i as u8).wrapping_mul(29).wrapping_add(7) ^ ((i as u8) << 4)).collect();
+    let mut v = vec![vec![0u8; len], vec![0xffu8; len], vec![0xaau8; len], vec![0x55u8; len], ramp.iter().map(|b| !b).collect(), ramp];
     if tier == Tier::Thorough {
         for bit in 0..header_bits {
             let mut z = vec![0u8; len];
@@ -124,7 +127,7 @@ pub fn run(args: &Args) -> i32 {
         let mut local: BTreeMap<String, Finding> = BTreeMap::new();
         let mask: u128 = if f.width == 128 { u128::MAX } else { (1u128 << f.width) - 1 };
         for (bi, bg) in bgs.iter().enumerate() {
-            let vs: &[u128] = if bi < 4 { &vals } else { &boundary };
+            let vs: &[u128] = if bi < 6 { &vals } else { &boundary };
             for &a in vs {
                 let mut buf = bg.clone();
                 let want_val = a & mask;
@@ -189,6 +192,11 @@ pub fn run(args: &Args) -> i32 {
             }
         }
     });
+    // variable-position regions (options, payload): RFC position for every header length
+    let mut region_checks = 0u64;
+    for (key, detail) in pkt::region_results(&mut region_checks) {
+        findings.lock().unwrap().entry(key.clone()).or_insert_with(|| Finding { key, detail, replay: json!({"check": "C12", "part": "regions"}), weight: (0, 0), count: 1 });
+    }
     // construction succeeds exactly for buffers of at least the minimum header size (new and new_view)
     let mut ctor_checks = 0u64;
     for l in 0..=48usize {
@@ -210,10 +218,11 @@ pub fn run(args: &Args) -> i32 {
     }
     let (evals, nontrivial, samples) = totals.into_inner().unwrap();
     rep.merge_findings(findings.into_inner().unwrap());
-    rep.set("evaluations", json!(evals + ctor_checks));
+    rep.set("evaluations", json!(evals + ctor_checks + region_checks));
+    rep.set("region_checks", json!(region_checks));
     rep.set("distinct_nontrivial", json!(nontrivial));
     rep.set("fields", json!(fields.len()));
-    rep.set("rule", json!("every field of the RFC position table x (full argument domain for argument types <= 16 bits [20 in thorough]; one-hot, one-cold, two-hot, byte boundaries and the low range for wider ones) x backgrounds {0x00,0xFF,0xAA,0x55} (+ every one-hot/one-cold header bit with boundary arguments in thorough); a case is non-trivial when the write changes the buffer or the argument exceeds the field width; oracle: whole buffer equals background with exactly the field's bits replaced (network order) and get(set(v)) = v mod 2^w"));
+    rep.set("rule", json!("every field of the RFC position table x (full argument domain for argument types <= 16 bits [20 in thorough]; one-hot, one-cold, two-hot, byte boundaries and the low range for wider ones) x backgrounds {0x00,0xFF,0xAA,0x55} (+ every one-hot/one-cold header bit with boundary arguments in thorough); a case is non-trivial when the write changes the buffer or the argument exceeds the field width; oracle: whole buffer equals background with exactly the field's bits replaced (network order) and get(set(v)) = v mod 2^w Backgrounds: four uniform fills and two non-uniform ones (each octet differs from its neighbours). Regions: IPv4 options/payload for every header length 5..15, TCP options/payload for every data offset 5..15, IPv6/UDP/ICMP echo payloads, extension object payload: read accessors address exactly the RFC octets, set_payload writes there and nowhere else, views do not modify the buffer."));
     for s in samples {
         rep.sample(s);
     }
